@@ -36,6 +36,9 @@ type c07Case struct {
 	Reply     string `json:"starttls_reply"` // 220 | 4yz | 5yz | garbage
 	Handshake string `json:"handshake"`      // ok | wrongname | untrusted | garbage
 	AuthList  string `json:"auth_list"`      // advertised AUTH mechanisms ("" = no AUTH)
+	// PlainServer (implicit policies only): the peer on that port is a clear-text SMTP server that greets first;
+	// a client doing implicit TLS sends it a ClientHello and nothing else
+	PlainServer bool `json:"plain_server,omitempty"`
 }
 
 var c07AuthTypes = []string{"NOAUTH", "PLAIN", "PLAIN-NOENC", "LOGIN", "LOGIN-NOENC", "CRAM-MD5", "XOAUTH2", "SCRAM-SHA-1", "SCRAM-SHA-1-PLUS", "SCRAM-SHA-256", "SCRAM-SHA-256-PLUS", "AUTODISCOVER", "CUSTOM"}
@@ -154,7 +157,7 @@ func runC07Case(r *ev.Run, c c07Case) {
 			close(sessCh)
 			return
 		}
-		if c.Policy == "implicit" || c.Policy == "implicit-fallback" {
+		if strings.HasPrefix(c.Policy, "implicit") && !c.PlainServer {
 			sessCh <- refsmtp.ServeImplicitTLS(conn, cfg, 0)
 		} else {
 			sessCh <- refsmtp.Serve(conn, cfg, 0)
@@ -171,6 +174,11 @@ func runC07Case(r *ev.Run, c c07Case) {
 		opts = append(opts, mail.WithTLSPolicy(mail.NoTLS))
 	case "implicit":
 		opts = append(opts, mail.WithSSL())
+	case "implicit-sslport", "implicit-setsslport":
+		// implicit TLS requested through WithSSLPort / SetSSLPort on a Client whose port has been set explicitly before
+		if c.Policy == "implicit-sslport" {
+			opts = append(opts, mail.WithSSLPort(false))
+		}
 	case "implicit-fallback":
 		opts = opts[1:] // no WithPort: the API derives 465 / fallback 25 only from the default port
 		opts = append(opts, mail.WithSSLPort(true))
@@ -185,6 +193,9 @@ func runC07Case(r *ev.Run, c c07Case) {
 		_ = ln.Close()
 		r.HarnessError("C07 NewClient: " + err.Error())
 		return
+	}
+	if c.Policy == "implicit-setsslport" {
+		cl.SetSSLPort(true, false)
 	}
 	msg, _ := simpleMsg("c07", "sender@verif.example", []string{"rcpt@verif.example"}, "quoted-printable", "confidential body "+pass[:4]+"\r\n")
 	ctx, cancel := context.WithTimeout(context.Background(), 10*time.Second)
@@ -208,7 +219,7 @@ func runC07Case(r *ev.Run, c c07Case) {
 	}
 	r.Count("sessions", 1)
 	clear := sess.Clear()
-	if c.Policy == "implicit" || c.Policy == "implicit-fallback" {
+	if strings.HasPrefix(c.Policy, "implicit") {
 		clear = nil
 	}
 	cmds, commits, _ := sess.Snapshot()
@@ -242,11 +253,15 @@ func runC07Case(r *ev.Run, c c07Case) {
 		if dialErr == nil && !encrypted {
 			viol("mandatory-delivered-unencrypted:"+cfgKey, "message delivered although no TLS handshake completed", clearLines)
 		}
-	case "implicit", "implicit-fallback":
+	case "implicit", "implicit-fallback", "implicit-sslport", "implicit-setsslport":
 		if c.Policy == "implicit-fallback" {
 			r.Count("implicit_sessions_on_fallback_port", 1)
 		}
 		sessRaw := sess.RawBytes
+		if c.PlainServer {
+			sessRaw = sess.Clear() // what the clear-text server received
+			r.Count("implicit_tls_clients_against_cleartext_servers", 1)
+		}
 		if len(sessRaw) > 0 && sessRaw[0] != 0x16 {
 			viol("implicit-first-byte", fmt.Sprintf("with implicit TLS the first byte on the wire is %#x, not a TLS handshake record", sessRaw[0]), ev.Q(sessRaw, 100))
 		}
@@ -258,7 +273,7 @@ func runC07Case(r *ev.Run, c c07Case) {
 		}
 	}
 	// after a failed handshake: no application data
-	if c.Handshake != "ok" && (sess.TLSStarted || c.Policy == "implicit" || c.Policy == "implicit-fallback") {
+	if c.Handshake != "ok" && (sess.TLSStarted || strings.HasPrefix(c.Policy, "implicit")) {
 		if sess.PostTLSAppData > 0 {
 			viol("appdata-after-bad-handshake:"+c.Handshake, fmt.Sprintf("the server decrypted %d bytes of application data although its certificate is %s", sess.PostTLSAppData, c.Handshake), nil)
 		}
@@ -428,7 +443,7 @@ func runC07Seq(r *ev.Run, c c07SeqCase) {
 
 func runC07(r *ev.Run, rep *ev.ReplayDoc) ev.Summary {
 	sum := ev.Summary{
-		Rule: "matrix policy {mandatory, opportunistic, none, implicit} x auth type (all 13; custom = a harness mechanism without password) x host {localhost, 127.0.0.1, 127.0.0.2 (a non-localhost name reachable on loopback; certificate SANs cover all three)} x server behaviour {STARTTLS advertised or not; STARTTLS reply 220 / 454 / 502 / garbage; handshake ok / wrong-name certificate / untrusted certificate / garbage bytes} x 4 advertised AUTH lists, over real loopback TCP with the library's own dialers (tls.Dialer for implicit TLS). thorough enumerates the full matrix (minus combinations that cannot differ), quick a deterministic covering subset. The tap below the TLS layer records every byte before the first TLS record. Plus sequences on one live Client: dial under NoTLS / opportunistic, SetTLSPolicy(TLSMandatory), dial again (with and without Close in between), send. distinct by case",
+		Rule: "matrix policy {mandatory, opportunistic, none, implicit (WithSSL; also WithSSLPort / SetSSLPort after an explicit WithPort, and the fixed fallback port)} x auth type (all 13; custom = a harness mechanism without password) x host {localhost, 127.0.0.1, 127.0.0.2 (a non-localhost name reachable on loopback; certificate SANs cover all three)} x server behaviour {STARTTLS advertised or not; STARTTLS reply 220 / 454 / 502 / garbage; handshake ok / wrong-name certificate / untrusted certificate / garbage bytes} x 4 advertised AUTH lists, over real loopback TCP with the library's own dialers (tls.Dialer for implicit TLS). thorough enumerates the full matrix (minus combinations that cannot differ), quick a deterministic covering subset. The tap below the TLS layer records every byte before the first TLS record. Plus sequences on one live Client: dial under NoTLS / opportunistic, SetTLSPolicy(TLSMandatory), dial again (with and without Close in between), send. distinct by case",
 		Assumptions: []string{
 			"'localhost names' are localhost, 127.0.0.1, ::1; 127.0.0.2 stands for any other host",
 			"credentials are unique 16-18 character random strings; searched raw, base64 (3 alphabets), hex, and inside every base64 token of the cleartext",
@@ -501,6 +516,19 @@ func runC07(r *ev.Run, rep *ev.ReplayDoc) ev.Summary {
 				cases = append(cases, c07Case{Policy: "implicit-fallback", AuthType: at, Host: host, Reply: "220", Handshake: hs, AuthList: c07AuthLists[1]})
 			}
 		}
+	}
+	// implicit TLS requested with WithSSLPort / SetSSLPort after an explicit port
+	for hi, host := range []string{"127.0.0.2", "localhost"} {
+		for ai, at := range []string{"NOAUTH", "PLAIN-NOENC", "LOGIN", "AUTODISCOVER"} {
+			for pi, pol := range []string{"implicit-sslport", "implicit-setsslport"} {
+				if !r.Thorough() && (hi+ai+pi)%2 != 0 {
+					continue
+				}
+				cases = append(cases, c07Case{Policy: pol, AuthType: at, Host: host, Reply: "220", Handshake: "ok", AuthList: c07AuthLists[0]})
+				cases = append(cases, c07Case{Policy: pol, AuthType: at, Host: host, Reply: "220", Handshake: "ok", AuthList: c07AuthLists[0], PlainServer: true})
+			}
+		}
+		cases = append(cases, c07Case{Policy: "implicit", AuthType: "PLAIN-NOENC", Host: host, Reply: "220", Handshake: "ok", AuthList: c07AuthLists[0], PlainServer: true})
 	}
 	r.ParallelN(48, len(cases), func(i int) {
 		if i%131 == 0 {
